@@ -453,7 +453,8 @@ def r5_definitely_assigned(ctx, F):
     sites = callers(F, save)
     ctx.floor("C02.R5", "save_definitely_assigned call sites", len(sites), 4)
     for f, c in sites:
-        rs = calls_by_name(f, rest)
+        from kern import calls_to
+        rs = calls_to(F, f, rest)
         ctx.check(bool(rs) and f.must_pass(c.bb, [r.bb for r in rs], f.returns()), "C02.R5",
                   "save-restore:" + short_fn(f.qpath),
                   "restore_definitely_assigned is reached on every normal path after save_definitely_assigned",
